@@ -38,6 +38,8 @@ pub enum Spec {
     Map(usize),
     Map2(usize, usize),
     Map3(usize, usize, usize),
+    /// `map4` / `map5` / `map6` (4 to 6 inputs, duplicates allowed)
+    MapN(Vec<usize>),
     MapWithOld(usize),
     Fold(Vec<usize>),
     Zip(usize, usize),
@@ -60,6 +62,7 @@ impl Spec {
             Spec::Map(_) => "Map",
             Spec::Map2(..) => "Map2",
             Spec::Map3(..) => "Map3",
+            Spec::MapN(v) => match v.len() { 4 => "Map4", 5 => "Map5", _ => "Map6" },
             Spec::MapWithOld(_) => "MapWithOld",
             Spec::Fold(_) => "Fold",
             Spec::Zip(..) => "Zip",
@@ -76,7 +79,7 @@ impl Spec {
             Spec::Map(a) | Spec::MapWithOld(a) | Spec::Fst(a) | Spec::PMap(a) | Spec::RefId(a) => vec![*a],
             Spec::Map2(a, b) | Spec::Zip(a, b) | Spec::DependOn(a, b) => vec![*a, *b],
             Spec::Map3(a, b, c) => vec![*a, *b, *c],
-            Spec::Fold(v) => v.clone(),
+            Spec::Fold(v) | Spec::MapN(v) => v.clone(),
             Spec::Bind { lhs, .. } => vec![*lhs],
         }
     }
@@ -764,6 +767,30 @@ impl World {
                     app(f, &[x.clone(), y.clone(), z.clone()])
                 }))
             }
+            Spec::MapN(v) => {
+                let hs: Vec<Incr<SV>> = v.iter().map(|j| self.s_handle(*j).unwrap()).collect();
+                match hs.len() {
+                    4 => Handle::S(hs[0].map4(&hs[1], &hs[2], &hs[3], move |a, b, c, d| {
+                        let _ = &g;
+                        let args = vec![a.clone(), b.clone(), c.clone(), d.clone()];
+                        sh.invoke(key, args.clone());
+                        app(f, &args)
+                    })),
+                    5 => Handle::S(hs[0].map5(&hs[1], &hs[2], &hs[3], &hs[4], move |a, b, c, d, e| {
+                        let _ = &g;
+                        let args = vec![a.clone(), b.clone(), c.clone(), d.clone(), e.clone()];
+                        sh.invoke(key, args.clone());
+                        app(f, &args)
+                    })),
+                    6 => Handle::S(hs[0].map6(&hs[1], &hs[2], &hs[3], &hs[4], &hs[5], move |a, b, c, d, e, g6| {
+                        let _ = &g;
+                        let args = vec![a.clone(), b.clone(), c.clone(), d.clone(), e.clone(), g6.clone()];
+                        sh.invoke(key, args.clone());
+                        app(f, &args)
+                    })),
+                    n => panic!("symx: MapN with {n} inputs"),
+                }
+            }
             Spec::MapWithOld(a) => {
                 let a = self.s_handle(*a).unwrap();
                 Handle::S(a.map_with_old(move |old: Option<SV>, x| {
@@ -1375,7 +1402,7 @@ impl World {
                     }
                     self.c06_val.insert(i, new);
                 }
-                Spec::Map(_) | Spec::Map2(..) | Spec::Map3(..) | Spec::PMap(_) | Spec::MapWithOld(_) | Spec::Fold(_) | Spec::Zip(..) => {
+                Spec::Map(_) | Spec::Map2(..) | Spec::Map3(..) | Spec::MapN(_) | Spec::PMap(_) | Spec::MapWithOld(_) | Spec::Fold(_) | Spec::Zip(..) => {
                     let ins = spec.inputs();
                     let run = first || ins.iter().any(|j| ns[*j]);
                     if run {
@@ -1480,6 +1507,10 @@ impl World {
             Spec::Map(a) | Spec::MapWithOld(a) => app(f, &[self.eval(*a, memo)]),
             Spec::Map2(a, b) | Spec::Zip(a, b) => app(f, &[self.eval(*a, memo), self.eval(*b, memo)]),
             Spec::Map3(a, b, c) => app(f, &[self.eval(*a, memo), self.eval(*b, memo), self.eval(*c, memo)]),
+            Spec::MapN(v) => {
+                let args: Vec<SV> = v.iter().map(|j| self.eval(*j, memo)).collect();
+                app(f, &args)
+            }
             Spec::Fold(v) => {
                 let mut acc = SV::lit(0);
                 for j in v {
@@ -1518,6 +1549,7 @@ impl World {
                     Spec::Map(a) | Spec::MapWithOld(a) => vec![vec![self.eval(*a, memo)]],
                     Spec::Map2(a, b) | Spec::Zip(a, b) => vec![vec![self.eval(*a, memo), self.eval(*b, memo)]],
                     Spec::Map3(a, b, c) => vec![vec![self.eval(*a, memo), self.eval(*b, memo), self.eval(*c, memo)]],
+                    Spec::MapN(v) => vec![v.iter().map(|j| self.eval(*j, memo)).collect()],
                     Spec::PMap(p) => vec![vec![self.pvars[p].1 .0.clone(), self.pvars[p].1 .1.clone()]],
                     Spec::Fold(v) => {
                         let mut out = vec![];
